@@ -6,6 +6,7 @@ import (
 	"io"
 	"math/rand"
 	"os"
+	"path/filepath"
 	"strconv"
 	"strings"
 
@@ -128,7 +129,7 @@ func (storageSlice) Gen(r *rand.Rand, _ int, tier string) ([]string, []string) {
 		// a file without parts
 		ops = []string{"rdfile " + bufs(), "size", "fin", "rdfile " + bufs(), "rdfile " + bufs(), "size"}
 		if r.Intn(2) == 0 {
-			ops = append(ops, "rm", "rdfile "+bufs(), "size")
+			ops = append(ops, "rm", "exists", "rdfile "+bufs(), "size")
 			tags = append(tags, "remove")
 		}
 		return ops, append(tags, "parts=0")
@@ -138,7 +139,7 @@ func (storageSlice) Gen(r *rand.Rand, _ int, tier string) ([]string, []string) {
 	partHasData := false
 	for len(ops) < maxOps {
 		if undisc && nparts > 0 && r.Intn(40) == 0 {
-			ops = append(ops, "rm")
+			ops = append(ops, "rm", "exists")
 			sawRmEarly = true
 			continue
 		}
@@ -234,7 +235,7 @@ func (storageSlice) Gen(r *rand.Rand, _ int, tier string) ([]string, []string) {
 		tags = append(tags, "rm-before-fin")
 	}
 	if r.Intn(3) == 0 {
-		ops = append(ops, "rm", "rdfile -", "size")
+		ops = append(ops, "exists", "rm", "exists", "rdfile -", "size")
 		if nparts > 0 {
 			ops = append(ops, "rdpart 0")
 		}
@@ -270,6 +271,7 @@ type storageRunner struct {
 	refPos  []int
 	fin     bool
 	removed bool
+	rmCalled bool
 	tainted bool // an op outside the property's quantifier was seen: the reference no longer applies
 	fails   []string
 }
@@ -479,6 +481,24 @@ func (r *storageRunner) Step(line string) []string {
 	ws := strings.Fields(line)
 	if len(ws) == 0 {
 		return nil
+	}
+	if ws[0] == "exists" {
+		_, err := os.Stat(filepath.Join(r.dir, "f.mp4"))
+		x := "x1"
+		if err != nil {
+			x = "x0"
+		}
+		// direct oracle: "Remove deletes the disk file" (and nothing else does)
+		if r.rmCalled && x != "x0" {
+			r.fails = append(r.fails, "disk file still exists after Remove")
+		}
+		if !r.rmCalled && x != "x1" {
+			r.fails = append(r.fails, "disk file missing although Remove was not called")
+		}
+		return []string{"ram:- disk:" + x}
+	}
+	if ws[0] == "rm" {
+		r.rmCalled = true
 	}
 	a := r.ram.step(ws)
 	d := r.disk.step(ws)
